@@ -379,6 +379,11 @@ pub fn sign_message(t: &mut Tape, mut l: Logical, node: &Node, acct: &Account, a
         if !t.chance(4) {
             signed.push(date_name.to_string());
         }
+        if t.chance(25) {
+            // an ordinary query parameter that merely has the name the *other* carrier uses for
+            // its token: with the header carrier it is not consulted for authentication
+            l.url_pairs.push((b"X-Amz-Security-Token".to_vec(), b"query-side-token".to_vec()));
+        }
     }
     // random extra signed headers among those present
     let names: Vec<String> = {
